@@ -25,7 +25,7 @@ import (
 func init() {
 	register(stream{
 		name: "container",
-		rule: "sets of 0–4 sealed delegations and invocations written with every writer (4 formats × {bytes, io.Writer}) and read with every reader (4 formats × {bytes, 1-byte reads, data-with-EOF reads, random chunkings}); single-entry corruptions of the written container (bit flips in the data, the stored CID and the length prefix, a token with a bad signature, duplicated and reordered blocks, a block stored under a CID of another codec/hash, a wrong version, trailing bytes); truncation at EVERY byte offset and a read fault at every offset (every 3rd in the quick tier, plus always the structural offsets: around each section boundary and right after each length prefix); unrelated writers and readers used from 8 goroutines at once; a write fault at EVERY write call of every writer including the final flush of the base64 encoders; single tokens: FromSealedReader under five chunkings, cut and failing at every offset, ToSealedWriter failing at every write call. Compared: error/ok and the set of CIDs. Added later: a later CAR block stored under the CID of an earlier one (own data, garbage, truncated data); a container used as the proof loader of its own invocations, one of which names an invocation as proof; an honest stream read right after every failed or cut read (generic and typed readers); a read fault reported once together with data, the stream then continuing (every offset × 4 chunkings). Sets of 23, 24, 25 (255–257 thorough) tokens — where a CBOR list length changes its encoding — written and read back through every variant; read faults reported with an error that WRAPS io.EOF (a failure, not a clean end) at every offset and section boundary; tokens with one field of 5 kB … 1.6 MB through every stream entry point. One character of the base64 TEXT replaced by one outside the alphabet (start, middle, end, and the first characters of every CAR section whose offset is a multiple of three, where the decoder reports the corruption exactly between two sections). Tokens of exactly chosen sizes (the CAR block a few bytes either side of every power of two from 2^9 to 2^16; every size 420…4400 in the thorough tier) written and read back through every variant. Non-trivial = every case but the unmodified round trips. Distinct = distinct protocol lines.",
+		rule: "sets of 0–4 sealed delegations and invocations written with every writer (4 formats × {bytes, io.Writer}) and read with every reader (4 formats × {bytes, 1-byte reads, data-with-EOF reads, random chunkings}); single-entry corruptions of the written container (bit flips in the data, the stored CID and the length prefix, a token with a bad signature, duplicated and reordered blocks, a block stored under a CID of another codec/hash, a wrong version, trailing bytes); truncation at EVERY byte offset and a read fault at every offset (every 3rd in the quick tier, plus always the structural offsets: around each section boundary and right after each length prefix); unrelated writers and readers used from 8 goroutines at once; a write fault at EVERY write call of every writer including the final flush of the base64 encoders; single tokens: FromSealedReader under five chunkings, cut and failing at every offset, ToSealedWriter failing at every write call. Compared: error/ok and the set of CIDs. Added later: a later CAR block stored under the CID of an earlier one (own data, garbage, truncated data); a container used as the proof loader of its own invocations, one of which names an invocation as proof; an honest stream read right after every failed or cut read (generic and typed readers); a read fault reported once together with data, the stream then continuing (every offset × 4 chunkings). Sets of 23, 24, 25 (255–257 thorough) tokens — where a CBOR list length changes its encoding — written and read back through every variant; read faults reported with an error that WRAPS io.EOF (a failure, not a clean end) at every offset and section boundary; tokens with one field of 5 kB … 1.6 MB through every stream entry point. One character of the base64 TEXT replaced by one outside the alphabet (start, middle, end, and the first characters of every CAR section whose offset is a multiple of three, where the decoder reports the corruption exactly between two sections). Tokens of exactly chosen sizes (the CAR block a few bytes either side of every power of two from 2^9 to 2^16; every size 420…4400 in the thorough tier) written and read back through every variant. A CAR container in which a section ends exactly at every multiple of 1 MiB up to 33 (thorough 65) MiB, read by the stream and the byte-slice readers. Non-trivial = every case but the unmodified round trips. Distinct = distinct protocol lines.",
 		run:  runContainerStream,
 		eval: evalContainer,
 		cmp: func(line, g, m string) string {
@@ -212,6 +212,10 @@ func evalContainer(line string) (string, string) {
 		fmt.Sscan(f[2], &lo)
 		fmt.Sscan(f[3], &hi)
 		return containerSizes(f[1], lo, hi), line
+	case "go.ctn.aligned":
+		var mib int
+		fmt.Sscan(f[1], &mib)
+		return containerAligned(mib), line
 	case "go.ctn.concurrent":
 		return containerConcurrent(), line
 	case "go.ctn.loader":
@@ -851,6 +855,14 @@ func runContainerStream(c *ctx) error {
 			}
 		}
 	}
+	// a CAR container laid out so that a SECTION ENDS EXACTLY at every multiple of 1 MiB up to 33 (thorough 65) MiB, with one more
+	// section after the last: a reader that stops at a limit sees a clean end of data there (CARv1 has no end marker)
+	// and would hand out a part of the set; stream and byte-slice variants return the whole set
+	aligned := 33
+	if c.thoro {
+		aligned = 65
+	}
+	c.emit(fmt.Sprintf("go.ctn.aligned %d", aligned), "container.aligned", true, "aligned")
 	c.emit("go.ctn.concurrent", "container.concurrent", true, "concurrent")
 	c.emit("go.ctn.loader 0", "container.loader", true, "loader")
 	for _, kind := range []string{"dlg", "inv"} {
@@ -1041,4 +1053,92 @@ func runContainerStream(c *ctx) error {
 		}
 	}
 	return nil
+}
+
+// containerAligned: a CAR container (header as the library writes it, sections laid out by the harness) whose first section
+// ends exactly at 1 MiB and every following section is exactly 1 MiB long, so that a section ends at EVERY multiple of 1 MiB up
+// to `total` MiB, with one more section after the last of them. The stream readers and the byte-slice reader return the whole set.
+func containerAligned(total int) (out string) {
+	defer func() {
+		if r := recover(); r != nil {
+			out = fmt.Sprint("panic ", r)
+		}
+	}()
+	const mib = 1 << 20
+	k0, aud := keyFor("ed25519", 0), keyFor("ed25519", 1)
+	build := func(pad, salt int) []byte {
+		nonce := []byte("nonce-aligned-??")
+		nonce[len(nonce)-1], nonce[len(nonce)-2] = byte('a'+salt%26), byte('a'+salt/26)
+		t, err := invocation.New(k0.did, aud.did, command.MustParse("/sized"), []cid.Cid{independentCid([]byte("p1"))},
+			invocation.WithNonce(nonce), invocation.WithoutInvokedAt(), invocation.WithArgument("pad", strings.Repeat("x", pad)))
+		if err != nil {
+			return nil
+		}
+		b, _, err := t.ToSealed(k0.priv)
+		if err != nil {
+			return nil
+		}
+		return b
+	}
+	padFor := func(size int) int {
+		pad := size - len(build(0, 0))
+		for try := 0; try < 6 && pad >= 0; try++ {
+			b := build(pad, 0)
+			if b == nil {
+				return -1
+			}
+			if len(b) == size {
+				return pad
+			}
+			pad += size - len(b)
+		}
+		return -1
+	}
+	probe, err := writeWith("car", false, [][]byte{build(10, 0)})
+	if err != nil {
+		return "harness: " + err.Error()
+	}
+	hl, n := binary.Uvarint(probe)
+	if n <= 0 {
+		return "harness: no header length"
+	}
+	header := n + int(hl)
+	// a section is uvarint(36 + size) + 36 CID bytes + the token; the uvarint takes 3 bytes for these sizes
+	firstPad, restPad := padFor(mib-header-36-3), padFor(mib-36-3)
+	if firstPad < 0 || restPad < 0 {
+		return "harness: tokens of the needed sizes cannot be built"
+	}
+	data := append([]byte(nil), probe[:header]...)
+	var cids []string
+	for i := 0; i <= total; i++ {
+		pad := restPad
+		if i == 0 {
+			pad = firstPad
+		}
+		b := build(pad, i)
+		c := independentCid(b)
+		cids = append(cids, hx(c.Bytes()))
+		var lp [10]byte
+		data = append(data, lp[:binary.PutUvarint(lp[:], uint64(len(c.Bytes())+len(b)))]...)
+		data = append(data, c.Bytes()...)
+		data = append(data, b...)
+		if i < total && len(data) != (i+1)*mib {
+			return fmt.Sprintf("harness: section %d ends at byte %d, not at %d", i, len(data), (i+1)*mib)
+		}
+	}
+	sort.Strings(cids)
+	want := "ok " + strings.Join(cids, ",")
+	for _, variant := range []string{"bytes", "chunks65536", "streamdata"} {
+		if got := readContainer("car", variant, "eof", data); got != want {
+			n := strings.Count(got, ",") + 1
+			if !strings.HasPrefix(got, "ok") {
+				n = 0
+			}
+			if len(got) > 60 {
+				got = got[:60] + "…"
+			}
+			return fmt.Sprintf("%d tokens, a section ending at every MiB up to %d MiB: read with %s gives %d of them (%s)", total+1, total, variant, n, got)
+		}
+	}
+	return "ok"
 }
